@@ -23,6 +23,33 @@ Theorem C01_roundtrip : forall T, env_ok T ->
 Proof. exact roundtrip_top. Qed.
 Print Assumptions C01_roundtrip.
 
+(* ... and encoding that decoded value again reproduces the identical bytes *)
+Theorem C01_reencode_identical : forall T ty tag fl vs b,
+  T ty = Some (tag, fl) -> enc_top T (VStruct ty vs) = Some b ->
+  enc_top T (VStruct ty (normalize_fields T fl vs)) = Some b.
+Proof. exact reencode_top. Qed.
+Print Assumptions C01_reencode_identical.
+
+(* the hypothesis wf is decidable: a computable check that implies it (used to MEASURE, on every run, how
+   many generated values the theorem covers) *)
+Theorem C01_wf_checkable : forall T s key v, wf_b T s key v = true -> wf T s key v.
+Proof. exact wf_b_wf. Qed.
+Print Assumptions C01_wf_checkable.
+
+(* non-vacuity: a Create request with a pointer payload, dispatched attribute values (Enumeration, Integer,
+   a Name structure through a pointer), unique batch item id and correlation value satisfies the
+   hypotheses, and the theorem applied to it gives its round trip *)
+Theorem C01_example_wf : wf inst_T (SStruct "Request" request_fl) VNil (VStruct "Request" golden_fields).
+Proof. exact golden_request_wf. Qed.
+Print Assumptions C01_example_wf.
+
+Theorem C01_example_roundtrips : exists b,
+  inst_enc_top (VStruct "Request" golden_fields) = Some b /\
+  dec_top "Request" request_tag request_fl {| rest := b; last := 0 |}
+  = Ok (VStruct "Request" (normalize_fields inst_T request_fl golden_fields), blen b, {| rest := []; last := 0 |}).
+Proof. exact golden_request_roundtrips. Qed.
+Print Assumptions C01_example_roundtrips.
+
 (* a pointer to a message is encoded like the message (pointer versus value payloads) *)
 Theorem C01_pointer_top : forall T ty vs, enc_top T (VPtr (VStruct ty vs)) = enc_top T (VStruct ty vs).
 Proof. exact enc_top_ptr. Qed.
